@@ -174,6 +174,7 @@ type World struct {
 	spinWG    sync.WaitGroup
 	spinPause int32
 	loadCancelled bool // restart … ctx=cancelled
+	legacyOf      map[int]<-chan events.Event // legacy channels handed out just before a store was closed
 	sigOverride *int // forge: the `sig` flag to declare instead of the measured one (a malleated signature verifies, but nobody signed it)
 	lastStore iface.Store // address family: the store of the last successful createdb
 	acSimple  bool     // scenario flag ac=simple: the `simple` access controller instead of the default `ipfs` one
